@@ -73,7 +73,12 @@ def run(spec):
       # 'refit' flavour: the diagnostics object has already screened another frame (more geos / a planted outlier)
       other = dict(fs, outlier={'pos': 2, 'amount': 500, 'geo': 0}, geos=[dict(g, kind='ind') if i == 1 else g for i, g in enumerate(fs['geos'])])
       try:
-        d0 = _fit(frames.materialise(other)[0], kwargs, target)
+        kw0 = dict(kwargs)
+        if fs['perm_seed'] % 2:
+          # ... and with the control / treatment labels the other way round
+          lab0 = truth['labels']
+          kw0['group_control'], kw0['group_treatment'] = lab0['group_treatment'], lab0['group_control']
+        d0 = _fit(frames.materialise(other)[0], kw0, target)
         cls.append('refit')
       except Exception:  # pylint: disable=broad-except
         d0 = None
